@@ -486,42 +486,45 @@ class CodeBuilder:
                 alias = self.__get_field_alias(fname, ftype, metadata, config)
 
                 filtered_fields.append((fname, alias, ftype))
-            if filtered_fields:
-                if config.forbid_extra_keys:
-                    allowed_keys = {f[1] or f[0] for f in filtered_fields}
+            if config.forbid_extra_keys:
+                allowed_keys = {f[1] or f[0] for f in filtered_fields}
 
-                    # If a discriminator with a field is set via config,
-                    # we should allow this field to be present in the input
-                    # This will not work for annotated discriminators though...
-                    discr = self.get_discriminator(look_in_parents=True)
-                    if discr and discr.field:
-                        allowed_keys.add(discr.field)
+                # If a discriminator with a field is set via config,
+                # we should allow this field to be present in the input
+                # This will not work for annotated discriminators though...
+                discr = self.get_discriminator(look_in_parents=True)
+                if discr and discr.field:
+                    allowed_keys.add(discr.field)
 
-                    if config.allow_deserialization_not_by_alias:
-                        allowed_keys |= {f[0] for f in filtered_fields}
+                if config.allow_deserialization_not_by_alias:
+                    allowed_keys |= {f[0] for f in filtered_fields}
 
+                if allowed_keys:
                     allowed_keys_str = ", ".join(map(repr, allowed_keys))
+                    allowed_keys_set = f"{{{allowed_keys_str}}}"
+                else:
+                    # a class without constructor parameters expects no key
+                    allowed_keys_set = "set()"
 
-                    with self.indent("try:"):
-                        self.add_line("d_keys = set(d.keys())")
-                    with self.indent("except AttributeError:"):
-                        with self.indent("if not isinstance(d, dict):"):
-                            self.add_line(
-                                "raise ValueError('Argument for "
-                                f"{type_name(self.cls)}.{method_name} method "
-                                "should be a dict instance') from None"
-                            )
-                        with self.indent("else:"):
-                            self.add_line("raise")
-                    self.add_line(
-                        f"forbidden_keys = d_keys - {{{allowed_keys_str}}}"
-                    )
-                    with self.indent("if forbidden_keys:"):
+                with self.indent("try:"):
+                    self.add_line("d_keys = set(d.keys())")
+                with self.indent("except AttributeError:"):
+                    with self.indent("if not isinstance(d, dict):"):
                         self.add_line(
-                            "raise ExtraKeysError(forbidden_keys,cls) "
-                            "from None"
+                            "raise ValueError('Argument for "
+                            f"{type_name(self.cls)}.{method_name} method "
+                            "should be a dict instance') from None"
                         )
+                    with self.indent("else:"):
+                        self.add_line("raise")
+                self.add_line(f"forbidden_keys = d_keys - {allowed_keys_set}")
+                with self.indent("if forbidden_keys:"):
+                    self.add_line(
+                        "raise ExtraKeysError(forbidden_keys,cls) "
+                        "from None"
+                    )
 
+            if filtered_fields:
                 with self.indent("try:"):
                     for fname, alias, ftype in filtered_fields:
                         self.add_type_modules(ftype)
